@@ -372,8 +372,56 @@ func slotIsPrivate(al *ssa.Alloc) bool {
 			if x.Addr != ssa.Value(al) {
 				return false
 			}
+		case *ssa.MakeClosure:
+			// captured by a function literal that is only deferred and only reads it
+			if !deferredReader(x, al) {
+				return false
+			}
 		default:
 			return false
+		}
+	}
+	return true
+}
+
+// deferredReader: the function literal mc is used only as the operand of
+// defer statements, and its captured variable al is only loaded inside it.
+func deferredReader(mc *ssa.MakeClosure, al *ssa.Alloc) bool {
+	if mc.Referrers() == nil {
+		return false
+	}
+	for _, r := range *mc.Referrers() {
+		switch x := r.(type) {
+		case *ssa.DebugRef:
+		case *ssa.Defer:
+			if x.Call.Value != ssa.Value(mc) {
+				return false
+			}
+		default:
+			return false
+		}
+	}
+	fn, ok := mc.Fn.(*ssa.Function)
+	if !ok {
+		return false
+	}
+	for i, b := range mc.Bindings {
+		if b != ssa.Value(al) {
+			continue
+		}
+		if i >= len(fn.FreeVars) || fn.FreeVars[i].Referrers() == nil {
+			return false
+		}
+		for _, r := range *fn.FreeVars[i].Referrers() {
+			switch x := r.(type) {
+			case *ssa.DebugRef:
+			case *ssa.UnOp:
+				if x.Op != token.MUL {
+					return false
+				}
+			default:
+				return false
+			}
 		}
 	}
 	return true
